@@ -27,7 +27,7 @@ pub fn meta() -> PropMeta {
         nontrivial_floor: 0.2,
         run,
         replay,
-        crashy: false,
+        crashy: true,
     }
 }
 
